@@ -11,10 +11,19 @@ PROPS = "RlibModel.Props.C03"
 PROFILES = ["release"]
 SHRINK_SEP = ";"
 RULE = ("cases are histories `C03 <item> <stream> ; op ; op …` on a vector of live treaps (ops: new, item, merge, splitat, splitby, insert, "
-        "remove, first, last, collect, size, agg, tag, drop). (i) exhaustive small scope, a full product: every priority assignment "
+        "remove, first, last, collect, size, agg, tag, drop, and — round 3 — the operations that RE-USE what the API returned: `move` = "
+        "remove_at then insert_at of the returned item (inside one treap or into another), `take` = Treap::from_item(remove_at(k)), `dup` = "
+        "from_item(clone of the only element through first/last/collect), and `collect2` = TreapNode::collect_into of two roots into ONE "
+        "vector). Items: `sum`, `aff`, and `key` = a bare key that relies on the trait's DEFAULT update/push and has no TreapItemSized (only "
+        "new/item/merge/splitby/first/last/collect/collect2/size/dup/drop exist for it; its sizes are node counts read through the public "
+        "fields). Priorities of the controlled stream include the ENDS of the priority type: 3 of the 10 policies draw from {0, u32::MAX}, "
+        "{0, 1, MAX-1, MAX} or mix a quarter of these into 32-bit random ones, and a second exhaustive scope runs every assignment "
+        "[n]->{0,1,MAX-1,MAX} for n<=3 (n<=4 thorough) x split point x item x build order (ties at 0 and at u32::MAX, empty operands on "
+        "either side of merge/split/remove). (i) exhaustive small scope, a full product: every priority assignment "
         "[n]->[n] for n<=4 (n<=5 thorough; all 120 orders of 5 in quick) — all relative orders, ties included — x every split point "
         "0..n x both items x three build orders (left-to-right, right-to-left, balanced), tags before/after the split, remove at the "
-        "split point; (ii) random histories of 25 composed operations, plus shares that first grow one treap to 20-64 and to 70-250 "
+        "split point, then a move inside the treap and a take + merge (new-node priorities run over the scope's values); the same builds "
+        "for `key` with split_by at every cut (n<=4); (ii) random histories of 25 composed operations, plus shares that first grow one treap to 20-64 and to 70-250 "
         "nodes (aff <= 90) — the size histogram is in generator_histogram (size_max_treap_*, size_nodes_created_*); priorities written "
         "by the case into the public `priority` field (7 policies: heavy ties, increasing, decreasing, 32-bit random, small range, "
         "constant, distinct); composed operations: insert as split/from_item/merge/merge, range tag, range aggregate, split-and-swap; "
@@ -30,6 +39,10 @@ ASSUMPTIONS = [
     "the Lean model of rlib_treap (Model/Treap.lean) is hand-written; it is tied to the code by running both on the same histories",
     "items are user code: the two harness items are written once in Rust (harness/e_treap/src/items.rs) and once in Lean "
     "(Model/TreapItems.lean, proved lawful); their agreement is part of what the differential run checks",
+    "the item `key` stores no size (default `update`): the harness reports the number of nodes it counts through the public left/right "
+    "fields, the model item `keyOnly` carries a ghost size maintained by its `update` (proved lawful); a clone of an INTERIOR node's item "
+    "is not a fresh item (it carries its subtree's size/aggregate, on the unchanged rlib too), so `dup` only clones the only element of a "
+    "treap (guard `size() <= 1` in harness, model and spec)",
     "magnitudes stay far below i64/i128 overflow (the harness is built with overflow-checks=true, so a wrap would show up as panic:overflow)",
     "`Box` moves / ownership are modelled as values; memory safety is rustc's",
 ]
@@ -37,10 +50,13 @@ MANIFEST = {
     "level": "proof",
     "text": ("Lean 4 theorems over an abstract lawful item (laws as hypotheses, nothing commutative) and arbitrary priorities (ties included): "
              "merge = ++, split_at = take/drop for every position, split_by = takeWhile/dropWhile for prefix-monotone predicates, "
-             "insert_at / remove_at (the theorems also cover positions past the end, which the check treats as outside the stated domain), first/last/collect/size, the root aggregate is the in-order "
+             "insert_at / remove_at (the theorems also cover positions past the end, which the check treats as outside the stated domain; remove_at "
+             "returns the item of a normalised one-node treap — size 1, aggregate of itself, no pending tag — which may be inserted again: "
+             "insertItem_seq, fromItem_seq, moveAt_seq), first/last/collect/size, the root aggregate is the in-order "
              "fold of exactly that subsequence, a modifier attached at a root maps over exactly that tree's elements once and in "
              "attachment order, and `history_refines`: any history on any number of live treaps refines the same history on plain "
-             "lists, observation for observation. The two harness items (incl. a non-commuting assign/add/negate tag item with a "
+             "lists, observation for observation (the operation language includes moving / taking out / cloning returned items and "
+             "collect_into into a shared vector). The three harness items (one that relies on the trait's default update/push, and a non-commuting assign/add/negate tag item with a "
              "non-commutative hash aggregate) are proved lawful. The hand-written model is tied to rlib_treap by a differential "
              "correspondence run on every check."),
     "note": ("Trusted: Lean kernel, axioms propext/Classical.choice/Quot.sound, the hand-written model (checked against the code on the "
@@ -50,7 +66,7 @@ MANIFEST = {
     "design_ref": "DESIGN.md §6 C03",
 }
 
-_RESTRUCT = ("merge", "splitat", "splitby", "insert", "remove")
+_RESTRUCT = ("merge", "splitat", "splitby", "insert", "remove", "move", "take")
 
 
 def nontrivial(case, rec):
